@@ -17,6 +17,7 @@ Streams of C02.
      acceptenc   hex, Accept-Encoding value ("" = header absent)
      listfmt     j | h : the listing is requested as JSON or as the default HTML page (same names)
      out         S<code> | R<code> TAB hexloc | F TAB enc TAB ino | L TAB hexnames | A TAB name=ino,… | H<code> TAB enc
+  c02.archerr  kind  type     kind none|symlink|dirlink|socket|procfs in the archived directory; out = alive clean | alive <defect> | CRASH
   c02.clean  hexpath        out = hex of path.Clean(path) TAB hex of path.Clean("/"+path)
   c02.match  hexpath hexbase    out = 1|0   (httpserver.Path.Matches)
   c02.escape hexpath        out = hex of (&url.URL{Path: p}).EscapedPath()
@@ -159,7 +160,15 @@ def escapeModel : List String → String
     | none => "bad-case"
   | _ => "bad-case"
 
+/-- c02.archerr (explored, not modelled): the archive error paths must leave the server alive
+and the client with one well-formed response. -/
+def archErrJudge (_ : List String) (out : String) : String :=
+  if out = "alive clean" then "ok"
+  else if out = "CRASH" then "bad:crash:the server process died while or after answering an archive request"
+  else "bad:two-responses:" ++ out
+
 def streams : List Driver.Stream := [
+  { name := "c02.archerr", model := fun _ => "alive clean", judge := archErrJudge },
   { name := "c02.serve", model := serveModel, judge := serveJudge },
   { name := "c02.clean", model := cleanModel, judge := fun _ _ => "ok" },
   { name := "c02.match", model := matchModel, judge := fun _ _ => "ok" },
